@@ -185,7 +185,7 @@ def run(ctx):
 
 
 def _check_method(ctx, model, cls, name, mem, node, order, accepted_z,
-                  splice_self=False):
+                  splice_self=False, lenient=False):
     loc = cls.module.loc(mem.node)
     tag = f"{cls.name}.{name}"
     pss = summarize(mem.node, node_param=False)
@@ -199,9 +199,33 @@ def _check_method(ctx, model, cls, name, mem, node, order, accepted_z,
                 unknown = v
             else:
                 atoms.append(a)
-        if unknown is not None:
+        if unknown is not None and not lenient:
             raise AnalysisError(f"{loc} {tag}: condition not understood: "
                                 f"{str(unknown)[:100]}")
+        if unknown is not None:
+            # an override with a guard outside the recognised atoms: the
+            # guard cannot be judged, the constructed result still can
+            res = _result(ps.retval) if ps.term == "return" else None
+            if res is None or res == ("NotImplemented",):
+                continue
+            if res[0] == "node":
+                want_items = [("*S" if x == "S" and splice_self else x)
+                              for x in order]
+                ok = res[1] == node and res[2] in (want_items, list(order))
+                if not ok:
+                    ctx.ob(f"E/{tag}/general:guarded", False, loc,
+                           f"{tag} builds {res[1]}({', '.join(res[2])}) under a "
+                           f"condition of its own; the operator denotes "
+                           f"{node}({', '.join(order)}) -- wrong node or operands")
+                continue
+            if ps.retval[0] == "call" and ps.retval[1].startswith("super"):
+                continue
+            ctx.ob(f"I/{tag}/rewrite-outside-identity-table", False, loc,
+                   f"{tag} returns {ast.unparse(ps.items[-1][1].value)} under a "
+                   "condition of its own: a construction-time rewrite that is "
+                   "not one of the valid neutral-element identities (the only "
+                   "shortcuts known to preserve the value for every operand)")
+            continue
         if ps.term == "raise":
             # assert-style gate
             ok = "gate-fail" in atoms
@@ -336,16 +360,26 @@ def _overrides(ctx, model):
             continue
         _check_method(ctx, model, cls, name, mem, node, order, dummy,
                       splice_self=True)
-    # no other node class overrides arithmetic dunders (except the legacy
-    # exact-arithmetic classes, which implement their own algebra)
+    # any other node class that overrides an arithmetic dunder is held to the
+    # same rules (same node for the operator, operands in order, only valid
+    # shortcuts); the legacy exact-arithmetic classes implement their own
+    # algebra and are out of scope
     nt = model.nodes
     for n in nt.all():
         if n.name in ("Sum", "Product", "Polynomial", "Rational", "MultiVector"):
             continue
         over = sorted(set(n.cls.members) & set(GENERAL))
-        ctx.ob(f"S/no-operator-override/{n.name}", not over, n.cls.loc(),
-               "inherits Expression's operators" if not over else
-               f"{n.name} overrides {over}", nontrivial=False)
+        if not over:
+            ctx.ob(f"S/no-operator-override/{n.name}", True, n.cls.loc(),
+                   "inherits Expression's operators", nontrivial=False)
+            continue
+        for name in over:
+            mem = n.cls.members[name]
+            if mem.kind != "func":
+                continue
+            node, order = GENERAL[name]
+            _check_method(ctx, model, n.cls, name, mem, node, order, dummy,
+                          splice_self=(n.name == node), lenient=True)
 
 
 def _ordering(ctx, model, E):
